@@ -142,6 +142,7 @@ theorem inject_allocOnly : (o : Obj) → AllocOnly (inject o)
   | .str _ => by unfold inject; exact AllocOnly.ret _
   | .bytes _ => by unfold inject; exact AllocOnly.ret _
   | .enumM _ _ => by unfold inject; exact AllocOnly.ret _
+  | .mdict _ _ => by unfold inject; exact AllocOnly.ret _
   | .coll k xs => by
     unfold inject
     exact (injectL_allocOnly xs).bind fun _ => (AllocOnly.alloc _).bind fun _ => AllocOnly.ret _
